@@ -115,6 +115,11 @@ def oracle(ctx, world):
         elif op == "wwrite":
             i = int(t[2])
             exp = [list(x) for x in model[name]]
+            if not (-len(exp) <= i < len(exp)):
+                ctx.violation(what="a write through the data view was accepted at an index the list model does not have", line=r["line"][:200],
+                              observed=f"accepted; view has {len(rows)} rows", required=f"IndexError (the list has {len(exp)} samples)")
+                model[name] = rows
+                continue
             exp[i] = [int(v) for v in t[3].split(";")]
         elif op == "wpickle":
             exp = model[t[1]]
@@ -202,6 +207,10 @@ def borrowed_and_factory_cases(ctx):
                       ("from_lines-2d", lambda: DigitalWaveform.from_lines(np.array([[1, 0], [0, 1]], np.uint8))),
                       ("from_lines-view", lambda: DigitalWaveform.from_lines(np.arange(12, dtype=np.uint8).reshape(6, 2)[1:4] % 2)),
                       ("from_lines-list", lambda: DigitalWaveform.from_lines([[1, 0], [0, 1]])),
+                      ("from_lines-transposed", lambda: DigitalWaveform.from_lines((np.arange(12, dtype=np.uint8) % 7).reshape(3, 4).T)),
+                      ("from_lines-fortran-nocopy", lambda: DigitalWaveform.from_lines(np.asfortranarray((np.arange(12, dtype=np.uint8) % 7).reshape(4, 3)), copy=False)),
+                      ("ctor-fortran", lambda: DigitalWaveform(data=np.asfortranarray((np.arange(8, dtype=np.uint8) % 5).reshape(4, 2)))),
+                      ("load-fortran-nocopy", lambda: (lambda w: (w.load_data(np.asfortranarray((np.arange(6, dtype=np.uint8) % 5).reshape(3, 2)), copy=False), w)[1])(DigitalWaveform(1, 2))),
                       ("from_port", lambda: DigitalWaveform.from_port(np.array([1, 2, 3], np.uint8), 0x03)),
                       ("from_ports", lambda: DigitalWaveform.from_ports(np.array([[1, 2, 3], [4, 5, 6]], np.uint8), [0x03, 0x07])[1])):
         for op in ("append", "capacity", "load"):
